@@ -1359,8 +1359,11 @@ class Do(BeginStatement):
             if label == self.endlabel:
                 result = True
                 if isinstance(self.parent, Do) and label == self.parent.endlabel:
-                    # the same item label may be used for different block ends
+                    # The same label terminates the enclosing loop too: hand
+                    # the statement back so that it is kept (once) by the
+                    # outermost loop sharing the label.
                     self.put_item(item)
+                    return True
         return BeginStatement.process_subitem(self, item) or result
 
     def get_classes(self):
